@@ -82,6 +82,7 @@ def function_stage(ck, n, n_malformed):
 
     for c in cases:
         res = by_case.get(id(c), {})
+        covered = set()
         for what, spec_for in (("read", ("readspec",)), ("readerr", ()), ("write", ("spec", "meta")), ("writeerr", ())):
             if what not in res:
                 continue
@@ -90,6 +91,7 @@ def function_stage(ck, n, n_malformed):
                 continue
             disagreements += 1
             bad = [(s, res[s][0]) for s in spec_for if s in res and not res[s][0].startswith("ok")]
+            covered.update(s for s, _ in bad)
             side = "reader" if what.startswith("read") else "writer"
             rep = dict(_replay(c), answer=a, request=rq[:4000])
             if bad:
@@ -107,7 +109,7 @@ def function_stage(ck, n, n_malformed):
                        f"{a[:200]} (case {c['idx']})", dict(_replay(c), answer=a, request=res["loop"][1][:4000]), False)
         # the Spec alone (model and code agree, or the model has no opinion)
         for s in ("readspec", "spec", "meta"):
-            if s in res and not res[s][0].startswith("ok") and all(res.get(w, ("same",))[0].startswith("same") for w in ("read", "write")):
+            if s in res and not res[s][0].startswith("ok") and s not in covered:
                 report(s, f"the real TFLite reader/writer leaves its specification ({s}): {res[s][0][:200]} (case {c['idx']})",
                        dict(_replay(c), spec=res[s][0]), True)
     ok_cases = [c for c in cases if c["write"] is not None and c["write"][0] == "ok"]
